@@ -1,32 +1,45 @@
 """C07 — observe client: notifications in freshness order, termination signalled once.
 
-Correspondence (model ≈ code), two levels:
+Correspondence (model ≈ code):
   (a) the real `aiocoap.protocol.Request` fed through a real `aiocoap.pipe.Pipe`
       (harness/c07_pipe.py; `time` as seen from aiocoap.protocol is a harness clock) vs the Lean
       runner `Aiocoap.Observe.step`: per event, what was handed to the application (response
-      future, callbacks, errbacks, `_stop_interest`) and whether the pipe has ended;
+      future, callbacks, errbacks, `_stop_interest`) and whether the pipe has ended; application
+      calls are events too: observation.cancel() between events and from inside the callback that
+      hands over a message, an errback that cancels, response.cancel();
   (b) the real UDP stack (netsim + virtual clock, harness/c07_stack.py): an observing request,
-      piggy-backed / separate first response, CON and NON notifications in any order, transport
-      errors, shutdown; vs the Lean message-layer model composed with the runner
-      (`Aiocoap.Observe.jointStep`): datagrams (ACK / RST), pipe events and deliveries.
+      piggy-backed / separate first response, CON and NON notifications in any order, error
+      responses carrying an Observe option, transport errors, shutdown, response.cancel(); vs the
+      Lean message-layer model composed with the runner (`Aiocoap.Observe.jointStep`): datagrams
+      (ACK / RST), pipe events and deliveries;
   (i) the real `ClientObservation._Iterator` (through `ClientObservation.__aiter__` / `callback` /
       `error`, a consumer task per `__anext__`) driven operation by operation — push, push_err,
       `__anext__` starting, the loop resuming the consumer, the consumer task being cancelled — vs
       the Lean iterator model with future identities (`Aiocoap.Observe.Iter.step`, `openOps`):
-      outputs and state (slot content, error kept aside, what the consumer is suspended on) after
-      every operation (harness/c07_iter.py).
+      outputs and state after every operation (harness/c07_iter.py);
+  (d) block-wise notifications through `Context.request()` (default `BlockwiseRequest`) over a
+      token interface of the harness that plays a server with a current representation
+      (harness/c07_bw.py): what `BlockwiseRequest._run_observation` is given by the lower
+      iteration, what becomes of each Block2 fetch (fetched / failed / network error) and what it
+      tells the application's observation, vs the Lean model of that loop
+      (`Aiocoap.Observe.Upper.step`); the application's view is judged by the oracle;
   (c) oracle only: the application's view through `Context.request()` with the default
       BlockwiseRequest and with handle_blockwise=False over a token interface of the harness
       (harness/c07_app.py): callbacks and async iteration, consumers that are busy or start late,
-      transport failure of the initial request.
-Oracle: RFC 7641 §3.4 and the termination clauses written from the RFC / the property over the
-observed deliveries (c07_pipe.oracle_history / oracle_iterator, c07_stack.oracle_stack,
-c07_iter.oracle_iter, c07_app.oracle_app).
+      transport failure of the initial request, cancels from inside callback / errback,
+      response.cancel().
+Oracle: RFC 7641 §3.4 / §4.2 and the termination clauses written from the RFC / the property over
+the observed deliveries (c07_pipe.oracle_history / oracle_iterator, c07_stack.oracle_stack,
+c07_iter.oracle_iter, c07_app.oracle_app, c07_bw.oracle).  A notification is a 2.xx response
+carrying an Observe option; "a response without Observe option (as every non-2.xx one is)" is
+every other response.  Wherever an error is handed to the application it must be an exception
+INSTANCE (derived from aiocoap's error.Error where aiocoap creates it).
 """
 import asyncio
 import itertools
 
 import c07_app
+import c07_bw
 import c07_iter
 import c07_pipe
 import c07_stack
@@ -37,26 +50,40 @@ RULE = ("(a) exhaustive: every sequence (with repetitions) of 5-6 notifications 
         "response over value sets straddling 0 / 2^23 / 2^24-1 / 2^24; every pair (v1, v1+d) for d "
         "around 0, +-2^23 with gaps 0, 128 s -1/0/+1 tick; every 3-step history of (stale|dup|fresh) x "
         "gap in {0,1,R-1,R,R+1,2R+1}; every position x kind of terminating event (2.xx/4.xx/5.xx "
-        "without Observe, last or not, last notification, six exception kinds) followed by more "
-        "notifications, each with attentive / lazy / busy / late async-iterator consumers; application "
-        "cancels at every position, in particular observation.cancel() before the first event followed "
-        "by every kind of first event; then random histories from the seed. "
+        "without Observe, last or not, last notification, 4.xx/5.xx WITH Observe fresher/older/equal, six "
+        "exception kinds) followed by more notifications, each with attentive / lazy / busy / late "
+        "async-iterator consumers; every code-class boundary (2.00, 2.01, 2.05, 2.31, 3.00, 4.00, 4.04, 5.00, "
+        "5.31) x (no Observe | fresher | older | duplicate | 0) x (marked last or not) at every position; "
+        "application cancels at every position, in particular observation.cancel() before the first event "
+        "followed by every kind of first event, from inside the callback at every kind of message, from "
+        "inside the errback at every way an observation ends, and response.cancel() before the first "
+        "event with every consumer; then random histories from the seed. "
         "(i) every sequence of up to 5 (thorough: 7) iterator operations over {push, push_err(cancelled), "
         "push_err(network error), __anext__, resume, cancel consumer}, every such sequence of up to 4 "
         "after __aiter__ on an observation with every kind of past, then random longer ones. "
         "(b) scripted observations over the real UDP stack, with and without a busy consumer, "
-        "observation.cancel() before the first response. (c) application-level scenarios through "
-        "Context.request() (default BlockwiseRequest and handle_blockwise=False). A case is non-trivial "
-        "when at least one notification was handed over and one was suppressed or the observation ended.")
+        "observation.cancel() before the first response, error responses with Observe option, response.cancel() "
+        "with a consumer, errbacks that cancel. (d) block-wise notifications: every misbehaviour of a block reply "
+        "(ETag change, short block, wrong number, error reply with/without Block2, dropped Block2 option, network "
+        "error) at block 1 and 2 x what follows (more notifications, final response, transport failure, nothing); "
+        "notifications overtaking a fetch, state changes whose notification is lost, older notifications arriving "
+        "late; then random server scripts. (c) application-level scenarios through Context.request() (default "
+        "BlockwiseRequest and handle_blockwise=False). A case is non-trivial when at least one notification was "
+        "handed over and one was suppressed or the observation ended (level d: and a fetch failed or the loop ended).")
 TRUSTED = ["harness clock standing in for `time` inside aiocoap.protocol; wrapper on the "
            "instance's _stop_interest (harness/c07_pipe.py)",
            "read-only peeks at _Iterator._future / _deferred_error and Task._fut_waiter for the state part of "
-           "the level (i) comparison (harness/c07_iter.py); fake token interface of level (c) (harness/c07_app.py)",
+           "the level (i) comparison (harness/c07_iter.py); fake token interface of levels (c)/(d) (harness/c07_app.py, c07_bw.py)",
+           "level (d): for the time of one run, a wrapper on the class attribute BlockwiseRequest._complete_by_requesting_block2 "
+           "(records which item the loop fetches and the outcome, calls the original), a wrapper on the Context instance's "
+           "request() and an extra errback on the lower request's observation (harness/c07_bw.py)",
            "virtual-clock event loop and fake-socket UDP stack of the harness (vloop.py, netsim.py)"]
 ASSUMPTIONS = ["asyncio semantics the iterator model relies on (await on a done future does not suspend; "
                "Task.cancel() cancels the awaited future if pending, else throws at the wake-up) are "
                "exercised by the level (i) correspondence, not proved",
-               "BlockwiseRequest._run_observation (consumer of the inner iterator) is not modelled: oracle only",
+               "level (d): the Block2 fetch itself (_complete_by_requesting_block2) is C05's; here only its outcome per "
+               "notification enters the model; a complete response without Block2 to a follow-up block request (4.04, bare "
+               "2.05) is handed over as such and does not end the observation (stated allowance of the oracle)",
                "time.time() does not go backwards by more than the model's Nat ticks can express (harness clock is monotone)"]
 
 M23, M24 = 1 << 23, 1 << 24
@@ -101,7 +128,10 @@ def fam_timing(R):
 
 
 TERMINATORS = ([["M", 0, c, None, 90, last] for c in (69, 132, 160) for last in (1, 0)] +
-               [["M", 0, 69, 1000, 91, 1], ["M", 0, 69, 2, 92, 1], ["M", 0, 132, 1000, 93, 1]] +
+               [["M", 0, 69, 1000, 91, 1], ["M", 0, 69, 2, 92, 1]] +
+               # "(as every non-2.xx one is)": an error response that carries an Observe option anyway --
+               # fresher than, older than, equal to what was delivered last; marked last by the feeder or not
+               [["M", 0, c, o, 93, last] for c in (132, 160) for o in (1000, 2, 101) for last in (1, 0)] +
                [["X", 0, k] for k in range(6)])
 
 
@@ -138,6 +168,106 @@ def fam_terminators():
                         yield {"observe": observe, "events": evs, "iter": it}
 
 
+CODES = (64, 65, 69, 95, 96, 128, 132, 160, 191)      # 2.00 .. 2.31 are successful; 3.00 is the first that is not
+
+
+def fam_codes():
+    """every response code class boundary x (no Observe | fresher | older | duplicate | zero) x (marked last or
+    not) at every position of an observation, followed by more notifications"""
+    base = [100, 101, 50, 102, 103]
+    for pos in range(0, 4):
+        for code in CODES:
+            for o in (None, 1000, 2, base[pos - 1] if pos else 100, 0):
+                for last in (0, 1):
+                    evs, t = [], 0
+                    for i in range(4):
+                        t += 5
+                        if i == pos:
+                            evs.append(["M", t, code, o, 90, last])
+                            t += 5
+                        evs.append(notif(t, base[i], i))
+                    evs.append(notif(t + 5, 2000, 77))
+                    for it in (None, {"mode": "attentive", "start": 0}, {"mode": "busy", "start": 0, "work": 2},
+                               {"mode": "lazy", "start": min(pos + 1, len(evs))}):
+                        yield {"observe": True, "events": evs, "iter": it}
+
+
+def fam_cancel_in_callback():
+    """the application calls observation.cancel() from inside the callback that hands it a message: a fresh
+    notification, an older one (no callback, so no cancel), the last notification, the final response (with
+    and without Observe option, marked last or not); then more events"""
+    vals = [10, 11, 12, 13]
+    kinds = [[69, 200, 0], [69, 1, 0], [69, 200, 1], [69, None, 1], [69, None, 0], [132, None, 1],
+             [132, 300, 1], [132, 1, 1], [160, 300, 0], [95, 200, 0], [96, 200, 1]]
+    tails = ([], [notif(0, 400, 60)], [notif(0, 400, 60), ["M", 0, 132, None, 61, 1], notif(0, 401, 62)],
+             [["X", 0, 2]], [["M", 0, 69, None, 61, 1]], [["RC", 0], notif(0, 400, 60)])
+    for pos in range(1, 5):
+        for code, o, last in kinds:
+            for tail in tails:
+                evs, t = [], 0
+                for i in range(pos):
+                    t += 3
+                    evs.append(notif(t, vals[i], i))
+                t += 3
+                evs.append(["M", t, code, o, 50, last, 1])
+                for e in tail:
+                    t += 3
+                    e = list(e)
+                    e[1] = t
+                    evs.append(e)
+                if last or not (o is not None and 64 <= code < 96):
+                    evs = [e for e in evs if e[0] != "X"]      # the pipe has ended: an exception is outside C07
+                yield {"observe": True, "events": evs, "iter": None}
+    # two callbacks' worth of cancels: a second cancelling message never gets a callback
+    yield {"observe": True, "iter": None,
+           "events": [notif(0, 1, 0), ["M", 1, 69, 2, 1, 0, 1], ["M", 2, 69, 3, 2, 0, 1], notif(3, 4, 3)]}
+
+
+def fam_response_cancel():
+    """request.response.cancel() (what asyncio.wait_for does on time-out) before the first event, with every
+    kind of consumer, followed by every kind of first event; and after the first response (no effect)"""
+    its = (None, {"mode": "attentive", "start": 0}, {"mode": "lazy", "start": 0}, {"mode": "lazy", "start": 2},
+           {"mode": "busy", "start": 0, "work": 2}, {"mode": "attentive", "start": 1})
+    tails = ([], [notif(5, 7, 40)], [notif(5, 7, 40), notif(6, 8, 41), ["M", 7, 132, None, 42, 1]],
+             [["M", 5, 132, None, 40, 1]], [["M", 5, 69, None, 40, 0]])
+    for observe in (True, False):
+        for tail in tails:
+            for it in (its if observe else (None,)):
+                yield {"observe": observe, "iter": it, "events": [["RC", 1]] + tail}
+                yield {"observe": observe, "iter": it, "events": [["RC", 1], ["RC", 2]] + tail}
+    for it in its:
+        yield {"observe": True, "iter": it,
+               "events": [notif(1, 5, 0), ["RC", 2], notif(3, 6, 1), notif(4, 7, 2), ["M", 5, 132, None, 3, 1]]}
+
+
+def fam_errback_cancels():
+    """the application's errback calls observation.cancel() on the observation it is being told the end of, at
+    every way an observation can end: failure of the initial request (six exception kinds), not observable
+    (no Observe / non-2.xx with Observe / marked last), later a transport failure, a final response (marked last or
+    not), a last notification, response.cancel() before the first response; then more events"""
+    ends_first = ([["X", 5, k] for k in range(6)] + [["M", 5, 69, None, 40, 1], ["M", 5, 69, None, 40, 0],
+                  ["M", 5, 132, 7, 40, 1], ["M", 5, 132, 7, 40, 0], ["M", 5, 69, 7, 40, 1], ["RC", 5]])
+    ends_later = ([["X", 20, k] for k in range(6)] + [["M", 20, 132, None, 41, 1], ["M", 20, 69, None, 41, 0],
+                  ["M", 20, 160, 9, 41, 1], ["M", 20, 69, 9, 41, 1], ["M", 20, 69, 1, 41, 1]])
+    its = (None, {"mode": "attentive", "start": 0}, {"mode": "lazy", "start": 0}, {"mode": "busy", "start": 0, "work": 2})
+    for e in ends_first:
+        for it in its:
+            if e[0] == "X" and e[2] >= 4 and it is not None:
+                continue
+            yield {"observe": True, "eb_cancels": True, "iter": it, "events": [e, notif(30, 8, 42)]}
+    for e in ends_later:
+        for it in its:
+            if e[0] == "X" and e[2] >= 4 and it is not None:
+                continue
+            yield {"observe": True, "eb_cancels": True, "iter": it,
+                   "events": [notif(5, 7, 40), notif(10, 8, 43), e, notif(30, 10, 42)]}
+    # ... and the application calls observation.cancel() once more afterwards: nothing happens
+    for e in (["X", 5, 2], ["M", 5, 132, None, 40, 1]):
+        yield {"observe": True, "eb_cancels": True, "iter": None, "events": [e, ["OC", 9], notif(30, 8, 42)]}
+        yield {"observe": True, "eb_cancels": False, "iter": None,
+               "events": [notif(1, 3, 39), e, ["OC", 9], ["OC", 10], notif(30, 8, 42)]}
+
+
 def fam_app():
     vals = [10, 11, 5, 12, 13]
     for pos in range(0, 6):
@@ -167,11 +297,12 @@ def fam_cancel_first():
     event, then more"""
     firsts = ([["M", 5, c, o, 40, last] for c in (69, 132) for o in (None, 7) for last in (0, 1)] +
               [["X", 5, k] for k in range(6)])
+    firsts += [["M", 5, 132, 7, 40, 0], ["M", 5, 132, 7, 40, 1]]
     for first in firsts:
         for pre in ([["OC", 1]], [["OC", 1], ["RC", 2]], [["RC", 1], ["OC", 2]], [["OC", 1], ["OC", 2]]):
             for tail in ([], [notif(9, 8, 41)], [notif(9, 8, 41), ["M", 12, 132, None, 42, 1]],
                          [notif(9, 8, 41), notif(10, 9, 43), ["RC", 11], notif(12, 10, 44)]):
-                if first[0] == "X" or first[5] or first[3] is None:
+                if first[0] == "X" or first[5] or first[3] is None or not 64 <= first[2] < 96:
                     # the pipe has ended: an exception after that is outside C07
                     tail = [e for e in tail if e[0] != "X"]
                 yield {"observe": True, "iter": None, "events": pre + [first] + tail}
@@ -196,11 +327,15 @@ def random_history(rng, R):
             if rng.random() < 0.93:
                 v %= M24
             v = max(v, 0)
-            code = 69 if rng.random() < 0.95 else rng.choice([65, 132, 160])
+            code = 69 if rng.random() < 0.93 else rng.choice([64, 65, 95, 96, 132, 160])
             evs.append(notif(t, v, i, last=1 if rng.random() < 0.04 else 0, code=code))
+            if rng.random() < 0.04:
+                evs[-1].append(1)        # the application cancels from inside the callback
             cur = v
         elif r < 0.90:
             evs.append(["M", t, rng.choice([69, 132, 160, 128]), None, i, 1 if rng.random() < 0.7 else 0])
+            if rng.random() < 0.1:
+                evs[-1].append(1)
         elif r < 0.95:
             evs.append(["X", t, rng.randrange(6)])
         elif r < 0.98:
@@ -213,9 +348,10 @@ def random_history(rng, R):
         if over and e[0] == "X":
             continue
         out.append(e)
-        if e[0] == "X" or (e[0] == "M" and (e[5] or e[3] is None)) or (i == 0 and e[0] == "RC"):
+        if e[0] == "X" or (e[0] == "M" and (e[5] or e[3] is None or not 64 <= e[2] < 96)) or \
+                (e[0] == "RC" and not any(x[0] in ("M", "X") for x in out[:-1])):
             over = True
-        if e[0] == "OC":
+        if e[0] == "OC" or (e[0] == "M" and len(e) > 6):
             over = True      # conservative: the next pipe event ends it
     it = None
     r = rng.random()
@@ -229,7 +365,10 @@ def random_history(rng, R):
         it = {"mode": "busy", "start": rng.randrange(0, len(out) + 1), "work": rng.randrange(1, 5)}
     if any(e[0] == "X" and e[2] >= 4 for e in out):
         it = None       # _Iterator.__del__ reports exceptions that are not NetworkErrors on stderr
-    return {"observe": observe, "events": out, "iter": it}
+    h = {"observe": observe, "events": out, "iter": it}
+    if rng.random() < 0.15:
+        h["eb_cancels"] = True
+    return h
 
 
 def level_a_cases(env, R):
@@ -240,6 +379,10 @@ def level_a_cases(env, R):
     fams.append(("terminators", list(fam_terminators())))
     fams.append(("app", list(fam_app())))
     fams.append(("cancel-first", list(fam_cancel_first())))
+    fams.append(("codes", list(fam_codes())))
+    fams.append(("cancel-in-callback", list(fam_cancel_in_callback())))
+    fams.append(("response-cancel", list(fam_response_cancel())))
+    fams.append(("errback-cancels", list(fam_errback_cancels())))
     wrap = [M24 - 2, M24 - 1, 0, 1]
     half = [5, 5 + M23 - 1, 5 + M23, 5 + M23 + 1]
     over = [0, M24 - 1, M24, M24 + 1]
@@ -334,15 +477,15 @@ def stack_script(rng, R, forced=None, consumer=None):
         elif r > 0.9:
             evs.append(R_(mt, 69, m, v, 10 + i, tok="22"))          # unknown token
         elif r > 0.84:
-            # malformed: an error response that carries an Observe option is a notification
-            # (the runner and the token manager only look at the option)
+            # malformed: an error response that carries an Observe option anyway -- the final response
+            # ("as every non-2.xx one is"); what follows are late notifications on a retired token
             evs.append(R_(mt, rng.choice([132, 160]), m, v, 10 + i))
         else:
             evs.append(R_(mt, 69, m, v, 10 + i))
     sc = {"events": evs, "rules": [], "draws": [], "mid": c07_stack.REQ_MID, "token": 32}
     if consumer is None:
         consumer = rng.random() < 0.4
-    if consumer and not oc_first and not any(e[0] in ("OC", "C") for e in evs):
+    if consumer and not oc_first and not any(e[0] == "OC" for e in evs):
         work = rng.choice([0, 1, 3, 50, 5000, R // 2])
         sc["consumer"] = {"work": work}
         t += (n + 4) * work
@@ -375,6 +518,61 @@ def stack_cancel_first_scripts():
                         ["A", 30]]
                     evs.sort(key=lambda e: e[1])
                     out.append({"events": evs, "rules": [], "draws": [], "mid": c07_stack.REQ_MID, "token": 32})
+    return out
+
+
+def stack_audit_scripts():
+    """non-2.xx responses carrying an Observe option (first response / later, fresher or older than what was
+    delivered, CON / NON / piggy-backed) followed by late notifications; request.response.cancel() before the
+    first response with an `async for` consumer"""
+    TOK = c07_stack.TOKEN
+    S = ["S", 0, 0, 0, False, True, None, True, 1, None, 0, 4]
+    out = []
+    for code in (132, 160):
+        for mt in ("CON", "NON"):
+            for o in (9, 3, 5):
+                for work in (None, 0, 3):
+                    evs = [S, ["R", 3, 0, False, "ACK", 69, c07_stack.REQ_MID, TOK, 5, 1],
+                           ["R", 7, 0, False, mt, 69, 300, TOK, 6, 2],
+                           ["R", 9, 0, False, mt, code, 301, TOK, o, 3],
+                           ["R", 11, 0, False, "CON", 69, 302, TOK, 10, 4],
+                           ["R", 13, 0, False, "NON", 69, 303, TOK, 11, 5],
+                           ["A", 40]]
+                    sc = {"events": evs, "rules": [], "draws": [], "mid": c07_stack.REQ_MID, "token": 32}
+                    if work is not None:
+                        sc["consumer"] = {"work": work}
+                    out.append(sc)
+        for first in (["R", 3, 0, False, "ACK", code, c07_stack.REQ_MID, TOK, 5, 1],
+                      ["R", 3, 0, False, "CON", code, 300, TOK, 5, 1],
+                      ["R", 3, 0, False, "NON", code, 300, TOK, 5, 1]):
+            evs = [S, first, ["R", 7, 0, False, "CON", 69, 301, TOK, 6, 2],
+                   ["R", 9, 0, False, "NON", 69, 302, TOK, 7, 3], ["A", 30]]
+            out.append({"events": evs, "rules": [], "draws": [], "mid": c07_stack.REQ_MID, "token": 32,
+                        "consumer": {"work": 0}})
+    # the errback cancels the observation it is being told the end of: Reset of the request, network error, shutdown,
+    # final response, not observable -- with other requests outstanding at the shutdown (the sweep must go on)
+    first = ["R", 3, 0, False, "ACK", 69, c07_stack.REQ_MID, TOK, 5, 1]
+    S1 = ["S", 1, 1, 1, False, False, None, True, 1, None, 0, 4]
+    for evs in ([S, ["R", 3, 0, False, "RST", 0, c07_stack.REQ_MID, "-", None, 0]],
+                [S, ["E", 3, 0]], [S, S1, ["X", 3]], [S, first, S1, ["X", 9]], [S, first, ["E", 9, 0]],
+                [S, first, ["R", 9, 0, False, "CON", 132, 300, TOK, None, 2]],
+                [S, first, ["R", 9, 0, False, "NON", 132, 300, TOK, 9, 2]],
+                [S, ["R", 3, 0, False, "ACK", 69, c07_stack.REQ_MID, TOK, None, 1]],
+                [S, ["R", 3, 0, False, "ACK", 132, c07_stack.REQ_MID, TOK, 5, 1]],
+                [S, ["C", 2, 0]]):
+        out.append({"events": evs + [["R", 20, 0, False, "CON", 69, 310, TOK, 11, 5], ["A", 60]], "rules": [],
+                    "draws": [], "mid": c07_stack.REQ_MID, "token": 32, "eb_cancels": True})
+    for rel in (True, False):
+        for ct in (1, 2, 3000):
+            for work in (0, 3):
+                for fev in ([["R", ct + 5, 0, False, "CON", 69, 300, TOK, 5, 1]],
+                            [["R", ct + 5, 0, False, "NON", 69, 300, TOK, 5, 1],
+                             ["R", ct + 9, 0, False, "CON", 69, 301, TOK, 6, 2]],
+                            [["E", ct + 5, 0]], [["X", ct + 5]], []):
+                    evs = [["S", 0, 0, 0, False, True, None, rel, 1, None, 0, 4], ["C", ct, 0]] + fev + \
+                          [["A", ct + 40]]
+                    out.append({"events": evs, "rules": [], "draws": [], "mid": c07_stack.REQ_MID, "token": 32,
+                                "consumer": {"work": work}})
     return out
 
 
@@ -419,6 +617,7 @@ def run_level_b(env, rep, R):
         bnd = bnd[::2]
     scripts += bnd
     scripts += stack_cancel_first_scripts()
+    scripts += stack_audit_scripts()
     for first in ("piggy", "sep", "noobs", "rst", "err", "shutdown", "cancel",
                   "oc+piggy", "oc+sep", "oc+noobs", "oc+rst", "oc+err", "oc+shutdown"):
         scripts += [stack_script(env.rng, R, forced=first) for _ in range(env.scale(6, 100))]
@@ -436,7 +635,16 @@ def run_level_b(env, rep, R):
         rep.count("b:scripts")
         if sc.get("consumer"):
             rep.count("b:consumer=" + ("busy" if sc["consumer"]["work"] else "attentive"))
+        if sc.get("eb_cancels"):
+            for e in ("NotObservable", "ObservationCancelled", "T0", "T2", "T3"):
+                if ":eb:" + e in res["impl_line"]:
+                    rep.count("b:errback-cancels:" + e)
         evk = [e[0] for e in sc["events"]]
+        if "C" in evk and all(e[0] not in ("R", "E", "X") for e in sc["events"][:evk.index("C")]):
+            rep.count("b:response-cancelled-before-first" + (":consumer" if sc.get("consumer") else ""))
+        if any(e[0] == "R" and e[8] is not None and 96 <= e[5] < 192 and e[7] == c07_stack.TOKEN and e[2] == 0
+               for e in sc["events"]):
+            rep.count("b:non-2.xx-with-observe")
         if "OC" in evk and all(e[0] not in ("R", "E", "X") for e in sc["events"][:evk.index("OC")]):
             rep.count("b:cancel-before-first")
         rep.count("b:callbacks", n_cb)
@@ -487,12 +695,20 @@ def classify(rep, fam, h, res):
     n_notif = sum(1 for e in h["events"][1:] if e[0] == "M" and e[3] is not None)
     ebs = [c07_pipe.Bench.exc_name(d[1]) for (_, dels, _) in res["raw"] for d in dels if d[0] == "eb"]
     rep.count("a:family=" + fam)
+    if h.get("eb_cancels") and ebs:
+        rep.count("a:errback-cancels:" + ebs[0])
     rep.count("a:events=%d" % min(len(h["events"]), 13))
     rep.count("a:end=" + (ebs[0] if ebs else "none"))
     if h.get("iter"):
         rep.count("a:iterator=" + h["iter"]["mode"] + (":late" if h["iter"]["start"] else ""))
-    for e in h["events"]:
+    for i, e in enumerate(h["events"]):
         rep.count("a:event=" + e[0] + (":noobs" if e[0] == "M" and e[3] is None else ""))
+        if e[0] == "M" and e[3] is not None and not 64 <= e[2] < 96:
+            rep.count("a:event=M:non-2.xx-with-observe" + (":first" if i == 0 else "") + (":last" if e[5] else ""))
+        if e[0] == "M" and len(e) > 6 and e[6]:
+            rep.count("a:event=M:cancels-in-callback")
+        if e[0] == "RC" and not any(x[0] in ("M", "X") for x in h["events"][:i]):
+            rep.count("a:event=RC:before-first" + (":iterating" if h.get("iter") else ""))
     if any(e[0] == "M" and e[3] is not None and e[3] >= M24 for e in h["events"]):
         rep.count("a:malformed=oversize-observe")
     return n_cb >= 1 and (n_cb < n_notif or bool(ebs))
@@ -514,7 +730,8 @@ async def run_level_a(env, rep, bench, R, fams):
             impl.append(res["impl"])
             cases.append({"level": "a", "history": h})
         compare(env, rep, cases, lines, impl, what="Request._run over a real Pipe (%s)" % fam)
-        if fam.startswith("perm") or fam in ("pairs", "timing", "terminators", "app", "cancel-first"):
+        if fam.startswith("perm") or fam in ("pairs", "timing", "terminators", "app", "cancel-first", "codes",
+                                             "cancel-in-callback", "response-cancel", "errback-cancels"):
             rep.exhaustive_parts.append(f"{fam}: {len(hs)} histories")
 
 
@@ -626,6 +843,13 @@ APP_SCRIPTS = [
     [["M", 69, (1 << 24) - 1, 1], ["M", 69, 0, 2], ["M", 69, (1 << 24) - 2, 3], ["M", 69, 1, 4]],
     [["M", 69, 10, 1], ["X", 1]],
     [["M", 69, 10, 1], ["X", 0]],
+    # "(as every non-2.xx one is)": error responses that carry an Observe option anyway
+    [["M", 69, 10, 1], ["M", 69, 11, 2], ["M", 132, 12, 3], ["M", 69, 13, 4]],
+    [["M", 69, 10, 1], ["M", 69, 11, 2], ["M", 132, 5, 3], ["M", 69, 13, 4]],
+    [["M", 69, 10, 1], ["M", 160, 11, 2], ["M", 69, 12, 3]],
+    [["M", 132, 10, 1], ["M", 69, 11, 2]],
+    [["M", 160, 0, 1]],
+    [["M", 69, 10, 1], ["M", 95, 11, 2], ["M", 64, 12, 3], ["M", 96, 13, 4], ["M", 69, 14, 5]],
 ]
 APP_GAPS = [(0, 0, 0, 0, 0), (4, 4, 4, 4, 4), (4, 0, 0, 0, 0), (2, 1, 0, 1, 0), (0, 3, 0, 0, 1),
             (4, 4, 4, 0, 0), (4, 4, 0, 4, 0), (1, 1, 1, 1, 1)]
@@ -641,6 +865,39 @@ def level_c_cases(env):
                 for script in APP_SCRIPTS:
                     out.append({"blockwise": bw, "consumer": cons, "open": op, "work": work,
                                 "arrivals": [[g] + a for g, a in zip(gaps, script)]})
+    # the application cancels from inside its callback, at every item of every script
+    for bw in (False, True):
+        for gaps in (APP_GAPS[0], APP_GAPS[1], APP_GAPS[3]):
+            for script in APP_SCRIPTS:
+                for a in script[1:]:
+                    if a[0] == "M":
+                        out.append({"blockwise": bw, "consumer": "callbacks", "open": 0, "work": 0, "cancel_at": a[3],
+                                    "arrivals": [[g] + x for g, x in zip(gaps, script)]})
+    # the application gives the request up (request.response.cancel(), as asyncio.wait_for does) before the first
+    # response -- or after it, where the future is complete and nothing changes
+    for bw in (False, True):
+        for cons, op, work in APP_CONSUMERS:
+            for script in ([], APP_SCRIPTS[0], APP_SCRIPTS[2], APP_SCRIPTS[8]):
+                out.append({"blockwise": bw, "consumer": cons, "open": op, "work": work, "rc": 0,
+                            "arrivals": [[4] + a for a in script]})
+            for script in (APP_SCRIPTS[0], APP_SCRIPTS[1], APP_SCRIPTS[10], APP_SCRIPTS[14]):
+                for rc in (1, 2):
+                    out.append({"blockwise": bw, "consumer": cons, "open": op, "work": work, "rc": rc,
+                                "arrivals": [[4] + a for a in script]})
+    # the errback cancels the observation it is being told the end of: at a Reset of the request, a time-out, a network
+    # error (first event and later), not observable, a final response, a given-up request -- and, the observation still
+    # running, at the Context.shutdown() the bench ends with
+    for bw in (False, True):
+        for script in ([["X", 0]], [["X", 1]], [["X", 2]], [["M", 69, None, 1]], [["M", 132, 5, 1]],
+                       [["M", 69, 10, 1], ["M", 69, 11, 2], ["X", 2]], [["M", 69, 10, 1], ["X", 0]],
+                       [["M", 69, 10, 1], ["M", 69, 11, 2], ["M", 132, None, 3]],
+                       [["M", 69, 10, 1], ["M", 132, 12, 2]],
+                       [["M", 69, 10, 1], ["M", 69, 11, 2], ["M", 69, 12, 3]]):
+            for gaps in (APP_GAPS[0], APP_GAPS[1]):
+                out.append({"blockwise": bw, "consumer": "callbacks", "open": 0, "work": 0, "eb_cancels": True,
+                            "arrivals": [[g] + x for g, x in zip(gaps, script)]})
+        out.append({"blockwise": bw, "consumer": "callbacks", "open": 0, "work": 0, "eb_cancels": True, "rc": 0,
+                    "arrivals": []})
     for _ in range(env.scale(400, 20000)):
         n = env.rng.randrange(1, 7)
         cur = env.rng.choice([0, 5, (1 << 23) - 1, (1 << 24) - 2])
@@ -648,9 +905,15 @@ def level_c_cases(env):
         for i in range(n):
             r = env.rng.random()
             g = env.rng.choice([0, 0, 0, 1, 2, 4])
-            if r < 0.75:
+            if r < 0.7:
                 cur = (cur + env.rng.choice([1, 1, 2, 0, -1, 1 << 23, (1 << 23) - 1])) % (1 << 24)
                 arr.append([g, "M", 69, cur, i + 1])
+            elif r < 0.77:
+                cur = (cur + env.rng.choice([1, 1, 2, 0, -1])) % (1 << 24)
+                # (2.31 Continue as the answer to the request itself is a Block1 protocol error for BlockwiseRequest: C05)
+                arr.append([g, "M", env.rng.choice([132, 160, 96, 64] + ([95] if i else [])), cur, i + 1])
+                if arr[-1][2] >= 96:
+                    break
             elif r < 0.9:
                 arr.append([g, "M", env.rng.choice([69, 132, 160]), None, i + 1])
                 break
@@ -658,8 +921,16 @@ def level_c_cases(env):
                 arr.append([g, "X", env.rng.randrange(3)])
                 break
         cons, op, work = env.rng.choice(APP_CONSUMERS)
-        out.append({"blockwise": env.rng.random() < 0.6, "consumer": cons, "open": op, "work": work,
-                    "arrivals": arr})
+        sc = {"blockwise": env.rng.random() < 0.6, "consumer": cons, "open": op, "work": work, "arrivals": arr}
+        if cons == "callbacks" and env.rng.random() < 0.3:
+            sc["cancel_at"] = env.rng.randrange(1, n + 1)
+        if cons == "callbacks" and env.rng.random() < 0.3:
+            sc["eb_cancels"] = True
+        if env.rng.random() < 0.08:
+            sc["rc"] = env.rng.choice([0, 0, 1])
+            if sc["rc"] == 0:
+                sc["arrivals"] = [a for a in arr if a[1] == "M"]
+        out.append(sc)
     return out
 
 
@@ -673,16 +944,74 @@ async def run_level_c(env, rep, aiocoap):
         rep.count("c:scenarios")
         rep.count("c:api=" + ("blockwise" if sc["blockwise"] else "plain") + ":" + sc["consumer"] +
                   (":late" if sc.get("open") else "") + (":busy" if sc.get("work") else ""))
-        if sc["arrivals"][0][1] == "X":
+        if sc["arrivals"] and sc["arrivals"][0][1] == "X":
             rep.count("c:first-event-transport-error:" + ("blockwise" if sc["blockwise"] else "plain"))
         if any(a[0] == 0 for a in sc["arrivals"][1:]):
             rep.count("c:back-to-back")
+        if sc.get("rc") is not None:
+            rep.count("c:response-cancelled:" + ("before-first" if sc["rc"] == 0 else "later") + ":" +
+                      ("blockwise" if sc["blockwise"] else "plain") + ":" + sc["consumer"])
+        if sc.get("eb_cancels"):
+            for x in res["seen"] + (res.get("after_shutdown") or []):
+                if x[0] == "eb":
+                    rep.count("c:errback-cancels:" + x[1])
+        if sc.get("cancel_at") is not None:
+            rep.count("c:cancel-in-callback" + (":hit" if ("item", sc["cancel_at"]) in res["seen"] else ""))
+        if any(a[1] == "M" and a[3] is not None and not 64 <= a[2] < 96 for a in sc["arrivals"]):
+            rep.count("c:non-2.xx-with-observe")
         for x in res["seen"]:
             if x[0] != "item":
                 rep.count("c:end=" + x[0] + (":" + x[1] if len(x) > 1 else ""))
         v, key = c07_app.oracle_app(sc, res)
         if v:
             rep.oracle_fail(case, v, key=key)
+
+
+# ------------------------------------------------------------------------------ level (d)
+
+async def run_level_d(env, rep, aiocoap):
+    """block-wise notifications through the default API (harness/c07_bw.py): the application's view is judged by
+    the oracle; what `BlockwiseRequest._run_observation` did with every item of the lower iteration is compared
+    with the Lean model of the loop (`C07 U`)"""
+    scs = [c["bw"] for _, c in load_corpus("C07") if "bw" in c]
+    scs += c07_bw.boundary_scenarios()
+    scs += [c07_bw.random_scenario(env.rng) for _ in range(env.scale(700, 30000))]
+    lines, impl, cases = [], [], []
+    for sc in scs:
+        res = await c07_bw.run_scenario(aiocoap, sc)
+        case = {"level": "d", "bw": sc}
+        items = [x for x in res["seen"] if x[0] == "item"]
+        rep.case(case, nontrivial=bool(items) and any(t[0].endswith((":skip", ":net")) or t[0] in ("stop", "raise")
+                                                       for t in res["trace"]), sample_every=2000)
+        rep.count("d:scenarios")
+        rep.count("d:consumer=" + sc["consumer"] + (":busy" if sc.get("work") else ""))
+        for t, _ in res["trace"]:
+            rep.count("d:loop-event=" + (t.split(":", 1)[1] if ":" in t else t))
+        for e in res["served"]:
+            if e[0] == "B":
+                rep.count("d:block-reply=" + e[3])
+            elif e[0] == "F":
+                rep.count("d:final=" + ("non-2.xx-with-observe" if e[2] is not None else "no-observe"))
+        st = sc["steps"]
+        if any(a[0] == "N" and b[0] == "N" for a, b in zip(st, st[1:])):
+            rep.count("d:notification-overtakes-fetch")
+        if any(x[0] == "S" for x in st):
+            rep.count("d:state-change-during-fetch")
+        if st and st[0] == ["RC"]:
+            rep.count("d:response-cancelled-before-first")
+        elif res["gave_up"]:
+            rep.count("d:response-cancelled-during-first-body")
+        if sc.get("cancel_at") is not None and ("item", 69, sc["cancel_at"]) in res["seen"]:
+            rep.count("d:cancel-in-callback:hit")
+        v, key = c07_bw.oracle(sc, res)
+        if v:
+            rep.oracle_fail(case, v, key=key)
+        tl = c07_bw.trace_lines(res)
+        if tl is not None:
+            lines.append(tl[0])
+            impl.append(tl[1])
+            cases.append(case)
+    compare(env, rep, cases, lines, impl, what="BlockwiseRequest._run_observation vs the loop model")
 
 
 def run(env, rep):
@@ -696,6 +1025,7 @@ def run(env, rep):
             loop.run_until_complete(run_level_a(env, rep, bench, R, fams))
             loop.run_until_complete(run_level_i(env, rep, aiocoap))
             loop.run_until_complete(run_level_c(env, rep, aiocoap))
+            loop.run_until_complete(run_level_d(env, rep, aiocoap))
         finally:
             loop.close()
     finally:
@@ -710,6 +1040,25 @@ def run(env, rep):
             "i:aiter-after=items", "i:malformed=feed-after-error",
             "c:first-event-transport-error:blockwise", "c:first-event-transport-error:plain",
             "c:back-to-back", "c:end=stop", "c:end=raise:NetworkError", "c:end=eb:ObservationCancelled",
+            "a:family=codes", "a:family=cancel-in-callback", "a:family=response-cancel",
+            "a:event=M:non-2.xx-with-observe", "a:event=M:non-2.xx-with-observe:first",
+            "a:event=M:non-2.xx-with-observe:last", "a:event=M:cancels-in-callback",
+            "a:event=RC:before-first", "a:event=RC:before-first:iterating",
+            "c:non-2.xx-with-observe", "c:cancel-in-callback:hit",
+            "c:response-cancelled:before-first:blockwise:iter", "c:response-cancelled:before-first:plain:iter",
+            "c:response-cancelled:before-first:blockwise:callbacks", "c:response-cancelled:later:plain:iter",
+            "d:loop-event=ok", "d:loop-event=skip", "d:loop-event=net", "d:loop-event=stop", "d:loop-event=raise",
+            "d:block-reply=etag", "d:block-reply=short", "d:block-reply=wrongnum", "d:block-reply=err",
+            "d:block-reply=errb2", "d:block-reply=noblock2", "d:block-reply=neterr",
+            "d:notification-overtakes-fetch", "d:state-change-during-fetch", "d:final=non-2.xx-with-observe",
+            "d:response-cancelled-before-first", "d:response-cancelled-during-first-body", "d:cancel-in-callback:hit", "d:consumer=iter:busy",
+            "a:family=errback-cancels", "a:errback-cancels:NotObservable", "a:errback-cancels:ObservationCancelled",
+            "a:errback-cancels:NetworkError", "a:errback-cancels:MessageError", "a:errback-cancels:LibraryShutdown",
+            "c:errback-cancels:MessageError", "c:errback-cancels:NetworkError", "c:errback-cancels:NotObservable",
+            "c:errback-cancels:ObservationCancelled", "c:errback-cancels:LibraryShutdown",
+            "b:errback-cancels:T0", "b:errback-cancels:T2", "b:errback-cancels:T3",
+            "b:errback-cancels:NotObservable", "b:errback-cancels:ObservationCancelled",
+            "b:response-cancelled-before-first:consumer", "b:non-2.xx-with-observe",
             "b:cancel-before-first", "b:consumer=busy", "b:end=NotObservable", "b:end=ObservationCancelled", "b:end=T2", "b:end=T3",
             "b:rst-sent", "b:ack-sent", "b:event=R:CON", "b:event=R:NON", "b:callbacks"]
     missing = [k for k in need if not rep.hist.get(k)]
@@ -748,6 +1097,14 @@ def replay(env, case):
         finally:
             loop.close()
         v, _ = c07_app.oracle_app(case["app"], res)
+        return v
+    if case.get("level") == "d":
+        loop = asyncio.new_event_loop()
+        try:
+            res = loop.run_until_complete(c07_bw.run_scenario(aiocoap, case["bw"]))
+        finally:
+            loop.close()
+        v, _ = c07_bw.oracle(case["bw"], res)
         return v
     if case.get("level") == "b":
         res = c07_stack.run_stack(case["script"])
